@@ -17,6 +17,34 @@ TOL = 1e-6
 MENU = [(-10, 10), (0, 10), (-10, 0), (2, 10), (0, 0)]
 
 
+RENDERERS = [
+    ("to_string", lambda s: s.to_string()),
+    ("to_html", lambda s: s.to_html()),
+    ("to_frame", lambda s: s.to_frame()),
+    ("_repr_html_", lambda s: s._repr_html_()),
+    ("to_string(names=True)", lambda s: s.to_string(names=True)),
+    ("to_html(names=True)", lambda s: s.to_html(names=True)),
+    ("to_string(threshold=1e-3)", lambda s: s.to_string(threshold=1e-3)),
+]
+
+
+def _pair_walk(n):
+    """Closed walk through every ordered pair (i, j), i, j < n (Eulerian circuit of the complete digraph with loops)."""
+    out_edges = {i: list(range(n)) for i in range(n)}
+    stack, walk = [0], []
+    while stack:
+        v = stack[-1]
+        if out_edges[v]:
+            stack.append(out_edges[v].pop())
+        else:
+            walk.append(stack.pop())
+    return walk[::-1]
+
+
+PAIR_WALK = _pair_walk(len(RENDERERS))
+SHORT_SEQ = [0, 5, 2, 3, 0]   # to_string, to_html(names=True), to_frame, _repr_html_ (= to_html()), to_string again
+
+
 def optimal_vertices(fba, z, limit=4):
     lp = fba.lp()
     lp.row(fba.cvec(), z, z)
@@ -64,6 +92,13 @@ def check_model(net, bounds, flip, scale, stats, rich=False):
         sols += [("vertex", solution_from(x)) for x in optimal_vertices(fba, z, 4 if rich else 2)]
         # a solution whose own objective_value is not the model objective at its fluxes (pFBA: total flux)
         sols.append(("given_pfba", pfba(model)))
+        # a user-edited solution (not a steady state any more): the tables still report flux x coefficient and the
+        # percentages of each side still sum to one; only the balance of the two totals is no longer implied
+        ed = model.optimize()
+        ed.fluxes = ed.fluxes.copy()
+        ed.fluxes[ids[0]] = ed.fluxes[ids[0]] + 1.5
+        ed.fluxes[ids[-1]] = ed.fluxes[ids[-1]] * 0.5 - 0.25
+        sols.append(("edited", ed))
         fva_frame = flux_variability_analysis(model, processes=1) if z >= 0 else None
         default_sol = pfba(model)
     fvas = [("none", None)]
@@ -78,6 +113,8 @@ def check_model(net, bounds, flip, scale, stats, rich=False):
     for sname, sol in sols:
         used = default_sol if sol is None else sol
         for fname, fv in fvas:
+            if sname == "edited" and fname in ("0.9", "1.0"):
+                continue    # the ranges do not depend on the solution; saves two FVA runs per summary
             case = {"net": [list(c) for c in net], "bounds": [[_j(a), _j(b)] for a, b in bounds], "flip": sorted(flip),
                     "scale": sorted(scale), "solution": sname, "fva": fname}
 
@@ -122,18 +159,46 @@ def check_model(net, bounds, flip, scale, stats, rich=False):
                         if fname != "0.9" or sname != "vertex":
                             pass
 
-            def render(kind, s):
-                try:
-                    a = s.to_string()
-                    b = s.to_html()
-                    c = s.to_frame()
-                    d = s._repr_html_()
-                    if not (isinstance(a, str) and isinstance(b, str) and isinstance(d, str) and hasattr(c, "columns")):
-                        bad(kind, "rendering returned an unexpected type", "")
-                    return a
-                except Exception as exc:
-                    bad(kind, "rendering raised " + type(exc).__name__, repr(exc))
-                    return None
+            def render(kind, s, walk=False):
+                """Rendering calls are observers: whatever their order, each must succeed, return the same
+                value as on first use and leave the public frames of the summary untouched.  `walk` follows a
+                closed walk through every ordered pair of RENDERERS (so every call is tried after every other
+                one on the same object); otherwise SHORT_SEQ."""
+                def frames():
+                    return {k: (tuple(v.columns), tuple(v.index), repr(v.to_numpy().tolist()))
+                            for k, v in vars(s).items() if isinstance(v, pd.DataFrame)}
+
+                state0 = frames()
+                first = {}
+                seq = PAIR_WALK if walk else SHORT_SEQ
+                text = None
+                for pos, k in enumerate(seq):
+                    name, fn = RENDERERS[k]
+                    prev = RENDERERS[seq[pos - 1]][0] if pos else "(fresh)"
+                    try:
+                        val = fn(s)
+                    except Exception as exc:
+                        bad(kind, "rendering raised " + type(exc).__name__, f"{name} after {prev}: {exc!r}")
+                        return text
+                    if name == "to_frame":
+                        ok = hasattr(val, "columns")
+                        val = (tuple(val.columns), tuple(val.index), repr(val.to_numpy().tolist()))
+                    else:
+                        ok = isinstance(val, str)
+                    if not ok:
+                        bad(kind, "rendering returned an unexpected type", name)
+                        return text
+                    if name == "to_string":
+                        text = val
+                    if k not in first:
+                        first[k] = val
+                    elif first[k] != val:
+                        bad(kind, "rendering depends on earlier rendering calls", f"{name} after {prev} differs from its first result")
+                        return text
+                    if frames() != state0:
+                        bad(kind, "rendering modified the summary's public frames", f"{name}: {sorted(k for k, v in frames().items() if v != state0.get(k))}")
+                        return text
+                return text
 
             stats["evaluations"] = stats.get("evaluations", 0) + 1
             # ---- model summary
@@ -150,7 +215,7 @@ def check_model(net, bounds, flip, scale, stats, rich=False):
                     (mid, cf), = coef[rid].items()
                     items[rid] = (float(used.fluxes[rid]), cf)
                 check_frames("model", ms.uptake_flux, ms.secretion_flux, items, "boundary reactions")
-                text = render("model", ms)
+                text = render("model", ms, walk=(sname == "fba" and fname in ("none", "frame")))
                 if text:
                     mo = re.search(r"=\s*(-?[0-9.eE+-]+|nan)\s*$", [ln for ln in text.splitlines() if "=" in ln and oid in ln][0]) \
                         if any("=" in ln and oid in ln for ln in text.splitlines()) else None
@@ -176,20 +241,20 @@ def check_model(net, bounds, flip, scale, stats, rich=False):
                 items = {rid: (float(used.fluxes[rid]), coef[rid][mid]) for rid in ids if mid in coef[rid]}
                 check_frames("metabolite", s.producing_flux, s.consuming_flux, items, "reactions of the metabolite")
                 p, c = s.producing_flux["flux"].sum(), s.consuming_flux["flux"].sum()
-                if abs(p + c) > 1e-5 * max(1, abs(p)):
+                if sname != "edited" and abs(p + c) > 1e-5 * max(1, abs(p)):
                     bad("metabolite", "producing and consuming totals do not balance", f"{p} vs {c}")
                 for frame, name in ((s.producing_flux, "producing"), (s.consuming_flux, "consuming")):
                     tot = frame["flux"].abs().sum()
                     if tot > tol and abs(frame["percent"].sum() - 1) > 1e-9:
                         bad("metabolite", "percentages do not sum to one", f"{name}: {frame['percent'].sum()}")
-                render("metabolite", s)
+                render("metabolite", s, walk=(sname == "fba" and mid == mets[0] and fname in ("none", "frame")))
             # ---- reaction summaries
             for rid in ids:
                 try:
                     with warnings.catch_warnings():
                         warnings.simplefilter("ignore")
                         s = model.reactions.get_by_id(rid).summary(solution=sol, fva=fv)
-                    render("reaction", s)
+                    render("reaction", s, walk=(sname == "fba"))
                 except Exception as exc:
                     bad("reaction", "raised " + type(exc).__name__, repr(exc))
     return out
